@@ -8,6 +8,6 @@ def run(ctx):
     # contain builds killed part-way (C10's operation), after which the target must still be found dirty
     rng = random.Random(ctx["seed"] * 47 + 2)
     killed = [c10.with_crashes(rng, depsgen.gen_case(rng, features=FEATURES["C02"])) for _ in range(150 if ctx["tier"] == "thorough" else 15)]
-    cov = deps_check.run_property(ctx, "C02", FEATURES["C02"], NCASES["C02"], WANT["C02"] | {"C01"}, known_matcher=c10.kill_window_matcher("C02"), extra_cases=killed)
+    cov = deps_check.run_property(ctx, "C02", FEATURES["C02"], NCASES["C02"], WANT["C02"] | {"C01"}, known_matcher=deps_check.nested_overbuild_matcher("C02", c10.kill_window_matcher("C02")), extra_cases=killed)
     cov["histories_with_killed_builds"] = len(killed)
     return cov
